@@ -1196,6 +1196,24 @@ func (s *dbSuite) genOp(r *rand.Rand, dead bool) string {
 	hb = hx([]byte(b))
 	switch kind {
 	case "kv":
+		if s.profile == "iso" && r.Intn(8) == 0 {
+			// two writes of one transaction to two buckets whose bucket+key concatenations coincide
+			pairs := [][2][2]string{{{"a", "ba"}, {"ab", "a"}}, {{"", "ab"}, {"a", "b"}}, {{"", "ba"}, {"b", "a"}}}
+			p := pairs[r.Intn(len(pairs))]
+			if r.Intn(2) == 0 {
+				p[0], p[1] = p[1], p[0]
+			}
+			ttl, ts := s.genTTL(r)
+			for _, q := range p {
+				s.usedKeys[q[0]] = append(s.usedKeys[q[0]], []byte(q[1]))
+			}
+			second := fmt.Sprintf("put %s %s %s %d %d", hx([]byte(p[1][0])), hx([]byte(p[1][1])), hx(s.genValue(r)), ttl, ts)
+			if r.Intn(4) == 0 {
+				second = fmt.Sprintf("del %s %s %d", hx([]byte(p[1][0])), hx([]byte(p[1][1])), now)
+			}
+			s.pendOps = append(s.pendOps, second)
+			return fmt.Sprintf("put %s %s %s %d %d", hx([]byte(p[0][0])), hx([]byte(p[0][1])), hx(s.genValue(r)), ttl, ts)
+		}
 		k := s.genKey(r, b)
 		switch r.Intn(14) {
 		case 0, 1, 2, 3, 4:
@@ -1228,7 +1246,7 @@ func (s *dbSuite) genOp(r *rand.Rand, dead bool) string {
 				lim = -1
 			case 2:
 				lim = 1 + r.Intn(3) // a short page
-			case 3:
+			case 3, 4:
 				lim = n + 5 + r.Intn(20) // more than the bucket can hold
 			}
 			if r.Intn(25) == 0 && s.profile != "sparse" { // sparse-mode paging is D-SPARSE-PAGE; its model is not kept for odd limits
